@@ -165,7 +165,24 @@ def build_slice(path, entries, tier, log):
     open(os.path.join(wd, "harness_funcs.txt"), "w").write("\n".join(
         ln.split()[-1] for ln in nm.splitlines() if len(ln.split()) >= 2 and ln.split()[-2] in "Tt") + "\n")
     linked = os.path.join(wd, "linked.bc")
-    P.run([P.LLVM_LINK, lib, "--override", hb, "-o", linked])
+    # "// @extract sym ...": file-local (static) library functions the harness drives directly or whose callees it
+    # replaces: llvm-extract turns them into an external definition and their file-local callees into external
+    # declarations, which the harness resolves through asm labels
+    extract = []
+    for ln in open(path):
+        mx = re.match(r"\s*//\s*@extract\s+(.*)$", ln)
+        if mx:
+            extract += mx.group(1).split()
+    link_in = [lib]
+    if extract:
+        xbc = os.path.join(wd, "extract.bc")
+        P.run(["llvm-extract-14"] + ["--func=" + f for f in extract] + [lib, "-o", xbc])
+        xt = P.run([P.LLVM_DIS, xbc, "-o", "-"])
+        xt = re.sub(r"\b(hidden|internal|fastcc) ", "", xt)
+        xll = os.path.join(wd, "extract.ll")
+        open(xll, "w").write(xt)
+        link_in.append(xll)
+    P.run([P.LLVM_LINK] + link_in + ["--override", hb, "-o", linked])
     api = ",".join(entries)
     P.run([P.OPT, "-passes=internalize,globaldce", "-internalize-public-api-list=" + api, linked, "-o", linked + ".1"])
     txt = P.run([P.LLVM_DIS, linked + ".1", "-o", "-"])
